@@ -141,7 +141,9 @@ def prepare(ctx, uid, spec, codec, n_values, n_fuzz, rng, fixed_cases=None):
             by_type.setdefault((m, n), []).append(b)
         for ti, mn in enumerate(types):
             seeds = by_type.get(mn) or [b'']
-            for _ in range(n_fuzz):
+            # every input costs two memsets of the struct: fewer inputs for multi-megabyte structs
+            big = T.approx_struct_bytes(spec, spec.index[mn]) > 300000
+            for _ in range(max(3, n_fuzz // 8) if big else n_fuzz):
                 fuzz.append((ti, mutate(rng, rng.choice(seeds))))
             for b in seeds[:3]:
                 fuzz.append((ti, b + b'\x00'))
@@ -251,7 +253,9 @@ def judge(ctx, p, report):
             continue
         rc, out, err = r[mode]
         res, last = parse_main_output(out)
-        crashed = rc != 0
+        crashed = rc != 0 and rc != -999
+        if rc == -999:
+            ctx.count('run:timeout-of-the-%s-binary (inconclusive, not judged)' % mode)
         for ci in range(len(p.cases)):
             got = res.get(ci)
             if got is None or not all(k in got for k in 'ESDT'):
@@ -384,7 +388,9 @@ def judge_fuzz(ctx, p, fz, report):
                 data.hex()[:60], py[2][:100], tok1[:160]), rep, 'fuzz-accepts-rejected')
         else:
             ctx.count('fuzz:c-accepts-python-rejects')
-    if rc != 0:
+    if rc == -999:
+        ctx.count('fuzz:timeout-of-the-sanitizer-binary (inconclusive, not judged)')
+    elif rc != 0:
         k = len(lines) - 1
         last = lines[-1] if lines else ''
         ti, data = p.fuzz[max(k, 0)] if p.fuzz else (0, b'')
